@@ -517,3 +517,43 @@ def value_to_coq(v, names):
     if v[0] == 'arr':
         return '(VArr [' + '; '.join(value_to_coq(x, names) for x in v[1]) + '])'
     return '(VStruct [' + '; '.join(f'({names.field(f)}, {value_to_coq(x, names)})' for f, x in v[1]) + '])'
+
+
+# ------------------------------------------------------------------------------------------------
+# targeted programs: one shared subtree (with sharing inside) placed at several depths, in and out of If branches
+# and lambda bodies — the situations in which a node is a binding site in one place and a bound node in another
+
+def targeted_program(rng, mode):
+    def wrap(p, n):
+        for _ in range(n):
+            p = ['un', '-', p]
+        return p
+
+    inner = rng.choice([['bin', '*', ['use', 't'], ['use', 't']],
+                        ['bin', '+', ['use', 't'], ['bin', '*', ['use', 't'], ['int', 2]]],
+                        ['bin', '-', ['bin', '*', ['use', 't'], ['use', 't']], ['use', 't']]])
+    tdef = rng.choice([['bin', '+', ['int', 1], ['int', 2]], ['un', '-', ['int', 7]],
+                       ['bin', '*', ['int', 3], ['bin', '+', ['int', 1], ['int', 1]]]])
+    occ = []
+    for _ in range(rng.randint(3, 6)):
+        what = ['use', rng.choice(['X', 'X', 'X', 't'])]
+        kind = rng.choice(['plain', 'plain', 'then', 'else', 'map', 'fold'])
+        w = wrap(what, rng.randint(0, 2))
+        if kind == 'plain':
+            o = w
+        elif kind == 'then':
+            o = ['if', ['bool', rng.random() < 0.5], w, ['int', 5]]
+        elif kind == 'else':
+            o = ['if', ['cmp', '<', ['int', 1], ['int', rng.randint(0, 2)]], ['int', 5], w]
+        elif kind == 'map':
+            x = 'e%d' % len(occ) if mode == 'api' else rng.choice(['x', 'y'])
+            o = ['len', ['map', x, ['array', [['int', 1], ['int', 2]]], ['bin', '+', ['var', x, 'int'], w]]]
+        else:
+            a, x = ('a%d' % len(occ), 'v%d' % len(occ)) if mode == 'api' else ('x', 'y')
+            o = ['fold', a, x, ['array', [['int', 1], ['int', 2]]], ['int', 0], ['bin', '+', ['var', a, 'int'], w]]
+        occ.append(wrap(o, rng.randint(0, 2)))
+    rng.shuffle(occ)
+    while len(occ) > 1:
+        i = rng.randrange(len(occ) - 1)
+        occ[i:i + 2] = [['bin', rng.choice(['+', '+', '*']), occ[i], occ[i + 1]]]
+    return ['share', 't', tdef, ['share', 'X', inner, occ[0]]]
